@@ -1,8 +1,8 @@
 package props
 
 import (
-	"go/token"
 	"fmt"
+	"go/token"
 	"go/types"
 	"sort"
 	"strings"
@@ -104,7 +104,7 @@ func runC17(c *Ctx) Info {
 		c.C.ExpectControl(r)
 	}
 	return Info{
-		Explanation: "VALIDATE-FIRST: every integer argument of every encoding entry point (and the EncodeParams fields the property names) must be compared in an error-exiting test before any other use, on every side the format limits. BUFFER-CHECK: every []byte pixel argument is length-tested against an expression of the geometry before it is indexed or passed on. NARROW: every narrowing conversion on the way to a header byte is value-preserving under the ranges the validation establishes (engine E2). IDX/DIV/MAKE/SHIFT/ASSERT/PANIC over encode-reachable code with the arguments as adversarial sources.",
+		Explanation:  "VALIDATE-FIRST: every integer argument of every encoding entry point (and the EncodeParams fields the property names) must be compared in an error-exiting test before any other use, on every side the format limits. BUFFER-CHECK: every []byte pixel argument is length-tested against an expression of the geometry before it is indexed or passed on. NARROW: every narrowing conversion on the way to a header byte is value-preserving under the ranges the validation establishes (engine E2). IDX/DIV/MAKE/SHIFT/ASSERT/PANIC over encode-reachable code with the arguments as adversarial sources.",
 		DoesNotCover: "that a returned stream decodes to the requested geometry beyond NARROW; silent replacement of invalid parameter values by Validate() (documented normalisation)",
 		Trusted:      commonTrusted,
 		Assumptions:  rangeAssumptions,
@@ -313,16 +313,32 @@ func (c *Ctx) bufferChecked(eng *ranges.Engine, fn *ssa.Function, p ssa.Value, d
 			if checkedAt(ins.Block()) {
 				continue
 			}
-			sc := cc.StaticCallee()
-			if sc == nil || sc.Blocks == nil || !load.InScope(sc) {
-				continue // handed to code outside the library (bytes.NewReader ...): reads are bounds-safe there
-			}
-			for ai, a := range cc.Args {
-				if a == p && ai < len(sc.Params) {
-					if ok, where, d := c.bufferChecked(eng, sc, sc.Params[ai], depth+1, visiting); !ok {
-						return false, where, d + " (reached from " + load.FuncName(fn) + ")"
+			var callees []*ssa.Function
+			if sc := cc.StaticCallee(); sc != nil {
+				callees = append(callees, sc)
+			} else if !cc.IsInvoke() {
+				// a call through a function value (encode := enc.encodeRGB; if gray { encode = enc.encodeGray };
+				// encode(w, pixelData)): every library function the call graph gives for this site
+				if node := c.P.CG.Nodes[fn]; node != nil {
+					for _, e := range node.Out {
+						if e.Site == x && e.Callee.Func != nil {
+							callees = append(callees, e.Callee.Func)
+						}
 					}
-					detail = "length tested in callee " + load.FuncName(sc)
+				}
+				sort.Slice(callees, func(i, j int) bool { return callees[i].String() < callees[j].String() })
+			}
+			for _, sc := range callees {
+				if sc.Blocks == nil || !load.InScope(sc) {
+					continue // handed to code outside the library (bytes.NewReader ...): reads are bounds-safe there
+				}
+				for ai, a := range cc.Args {
+					if a == p && ai < len(sc.Params) && len(cc.Args) == len(sc.Params) {
+						if ok, where, d := c.bufferChecked(eng, sc, sc.Params[ai], depth+1, visiting); !ok {
+							return false, where, d + " (reached from " + load.FuncName(fn) + ")"
+						}
+						detail = "length tested in callee " + load.FuncName(sc)
+					}
 				}
 			}
 		case *ssa.Store, *ssa.MakeInterface, *ssa.Phi:
